@@ -84,6 +84,16 @@ def generate(g, tier):
         else:
             steps.append(dict(op='compile', compiler=key, dir='last', src=dict(text=text + '\n$STRING 1/0')))
             cases.append(dict(op='history', steps=steps, meta=dict(family='prints-after-others', errprints_last=exp[2], nocorr=True)))
+    # a PRINT text may contain characters that some text-splitting routines treat as line boundaries (form feed, vertical tab, the
+    # information separators, NEL, the Unicode line / paragraph separators, a bare carriage return): the line is one line, the text is
+    # kept, the line numbers of later prints do not move
+    for ch in ['\x0b', '\x0c', '\x1c', '\x1d', '\x1e', '\x85', '\u2028', '\u2029', '\r']:
+        for shape in ('top', 'block'):
+            if shape == 'top':
+                t, pr = f'PRINT page one{ch}page two\nSTRING typed\nPRINT second', [[f'page one{ch}page two', 1, None], ['second', 3, None]]
+            else:
+                t, pr = f'REPEAT 2\n    PRINT a {ch} b\nSTRING typed\nPRINT last', [[f'a {ch} b', 2, None], [f'a {ch} b', 2, None], ['last', 4, None]]
+            cases.append(dict(op='compile', src=dict(text=t), meta=dict(family='separator-chars', exp=['ok', ['STRING typed'], pr, {}], nocorr=True)))
     for _ in range(count(tier, 100, 600)):
         # grouped and empty prints, inside a function called in a loop
         lines = ['FUNC show p', '    $PRINT p', '    PRINT', '        one', '        two', '    $PRINT', '        ""', '        "x"+p',
